@@ -170,6 +170,15 @@ def confirm(h, r, ov, env, outdir):
     consts = {s.split("=")[0]: s.split("=")[1] for s in spec[1:] if "=" in s}
     sig = [s for s in spec[1:] if ":" in s]
     t0 = time.time()
+    if not sig:
+        # the template takes no solver-chosen value (a fixed scenario): no playback run is needed
+        out = run_native(ov, template, dict(consts), outdir, h["name"], scaled=h.get("scaled", False))
+        out["values"] = dict(consts)
+        out["template"] = template
+        out["witnesses_tried"] = []
+        out["playback_s"] = 0.0
+        out["native_s"] = round(time.time() - t0, 1)
+        return out
     env2 = dict(env)
     env2["VERIF_REPLAY_CAP"] = "1"
     log = os.path.join(outdir, f"playback-{h['name']}.log")
